@@ -56,6 +56,7 @@ type c12Spec struct {
 	Mode      string     `json:"mode"`                   // production | testing
 	Prior     int        `json:"prior_panics,omitempty"` // Panic calls issued (and recovered) on the same logger before the call of the cell
 	Argv      string     `json:"extra_argv,omitempty"`   // one more command-line argument of the process (an application flag that merely looks like a test flag)
+	NArgs     int        `json:"more_pairs,omitempty"`   // further key/value pairs of the call (0: the one pair every cell has); more than the pooled slices hold when large
 	Dir       string     `json:"dir,omitempty"`
 }
 
@@ -64,7 +65,7 @@ func (s c12Spec) canon() string {
 	if s.Custom != nil {
 		c = fmt.Sprintf("%d/%d", s.Custom.V, s.Custom.Treat)
 	}
-	return fmt.Sprintf("%s.%s sev=%d L=%d ni=%v ia=%v %s d=%d %s c=%s p=%d", s.Recv, s.Name, s.Sev, s.Level, s.NoInt, s.IntAlways, s.Format, s.Dests, s.Mode, c, s.Prior) + " " + s.Argv
+	return fmt.Sprintf("%s.%s sev=%d L=%d ni=%v ia=%v %s d=%d %s c=%s p=%d", s.Recv, s.Name, s.Sev, s.Level, s.NoInt, s.IntAlways, s.Format, s.Dests, s.Mode, c, s.Prior) + " " + s.Argv + fmt.Sprintf(" n=%d", s.NArgs)
 }
 
 // what the parent saw
@@ -103,30 +104,38 @@ func (w *journalW) Write(p []byte) (int, error) {
 
 func c12Call(sp c12Spec, e *slog.Entry) {
 	ctx := context.Background()
+	kv := []any{"k", 1}
+	for i := 0; i < sp.NArgs; i++ {
+		kv = append(kv, fmt.Sprintf("k%04d", i), i)
+	}
 	if sp.Recv == "pkg" {
 		switch sp.Kind {
 		case "verb":
-			pkgVerbs[sp.Name](sp.Msg, "k", 1)
+			pkgVerbs[sp.Name](sp.Msg, kv...)
 		case "ctxverb":
-			pkgCtxVerbs[sp.Name](ctx, sp.Msg, "k", 1)
+			pkgCtxVerbs[sp.Name](ctx, sp.Msg, kv...)
 		case "println":
-			slog.Println(sp.Msg, "k", 1)
+			slog.Println(append([]any{sp.Msg}, kv...)...)
 		}
 		return
 	}
 	m := reflect.ValueOf(e).MethodByName(sp.Name)
 	v := reflect.ValueOf
+	var rest []reflect.Value
+	for _, x := range kv {
+		rest = append(rest, v(x))
+	}
 	switch sp.Kind {
 	case "verb", "println":
-		m.Call([]reflect.Value{v(sp.Msg), v("k"), v(1)})
+		m.Call(append([]reflect.Value{v(sp.Msg)}, rest...))
 	case "printf":
 		m.Call([]reflect.Value{v("%s"), v(sp.Msg)})
 	case "ctxverb":
-		m.Call([]reflect.Value{v(ctx), v(sp.Msg), v("k"), v(1)})
+		m.Call(append([]reflect.Value{v(ctx), v(sp.Msg)}, rest...))
 	case "level":
-		m.Call([]reflect.Value{v(ctx), v(slog.Level(sp.Sev)), v(sp.Msg), v("k"), v(1)})
+		m.Call(append([]reflect.Value{v(ctx), v(slog.Level(sp.Sev)), v(sp.Msg)}, rest...))
 	case "sloglevel":
-		m.Call([]reflect.Value{v(ctx), v(c12SlogLevel[sp.Sev]), v(sp.Msg), v("k"), v(1)})
+		m.Call(append([]reflect.Value{v(ctx), v(c12SlogLevel[sp.Sev]), v(sp.Msg)}, rest...))
 	}
 }
 
@@ -666,6 +675,9 @@ func runC12(r *Run) {
 		}
 		cells[i].Dests = 1 + r.R.Intn(2)
 		cells[i].Prior = i % 3
+		if i%5 == 2 { // a call with more attributes than the pooled slices hold
+			cells[i].NArgs = []int{1100, 130, 2100}[i/5%3]
+		}
 		if cells[i].Mode == "production" && i%4 == 1 { // the application's own flags are not go test's
 			cells[i].Argv = []string{"-bench=none", "-benchmark-mode", "-testing", "-test"}[i/4%4]
 		}
